@@ -160,3 +160,61 @@ Proof.
   - apply nt_mpei_body. intros e s. apply IH.
 Qed.
 End Mp11.
+
+(* ---- a throwing entry cascade of a submachine does not leave its processing marker set ---- *)
+Lemma nth_upd_same {A} (l:list A) i x d : i < length l -> nth i (upd l i x) d = x.
+Proof.
+  revert i. induction l as [|a l IH]; intros i Hi; cbn in *; [lia|].
+  destruct i as [|i]; cbn; [reflexivity|]. apply IH. lia.
+Qed.
+
+Lemma nth_some_lt {A} (l:list (option A)) i x : nth i l None = Some x -> i < length l.
+Proof.
+  revert i. induction l as [|a l IH]; intros i H; destruct i; cbn in *; try discriminate; try lia.
+  apply IH in H. lia.
+Qed.
+
+Lemma lift_child_clear_marker s rn g u rn' g' :
+  lift_child s tt (modify (fun kn => set_processing kn false)) rn g = (u, rn', g') ->
+  forall kn, nth s (kids rn') None = Some kn -> processing kn = false.
+Proof.
+  unfold lift_child. destruct (nth s (kids rn) None) as [kn0|] eqn:E.
+  - unfold modify. intros H kn Hk. inversion H; subst. clear H.
+    destruct rn; cbn in *. rewrite nth_upd_same in Hk by (eapply nth_some_lt; eauto).
+    inversion Hk; subst. destruct kn0; reflexivity.
+  - intros H kn Hk. inversion H; subst. rewrite E in Hk. discriminate.
+Qed.
+
+Lemma on_throw_cleanup {A} (m:M A) c rn g rn' g' :
+  on_throw m c rn g = (None, rn', g') ->
+  exists rn1 g1 u, m rn g = (None, rn1, g1) /\ c rn1 g1 = (u, rn', g').
+Proof.
+  unfold on_throw. destruct (m rn g) as [[[a|] rn1] g1]; [discriminate|].
+  destruct (c rn1 g1) as [[u rn2] g2] eqn:E. intros H. inversion H; subst. eauto.
+Qed.
+
+Section EntryThrow.
+Variable cf : cfg.
+Variable mc : machine.
+Variable children : list (option child_ops).
+
+Theorem back_entry_throw_clears_marker fuel s ev k co rn g rn' g' :
+  entry_throw_resets cf = true -> child children s = Some co ->
+  exec_entry cf mc children fuel s ev k rn g = (None, rn', g') ->
+  forall kn, nth s (kids rn') None = Some kn -> processing kn = false.
+Proof.
+  intros Hr Hc H. unfold exec_entry in H. rewrite Hc, Hr in H.
+  apply on_throw_cleanup in H. destruct H as (rn1 & g1 & u & _ & Hcl).
+  eapply lift_child_clear_marker; eauto.
+Qed.
+
+Theorem mp11_entry_throw_clears_marker contained fwd fuel s ev k co rn g rn' g' :
+  mp11_entry_throw_resets = true -> mchild children s = Some co ->
+  mexec_entry_gen cf contained mc children fwd fuel s ev k rn g = (None, rn', g') ->
+  forall kn, nth s (kids rn') None = Some kn -> processing kn = false.
+Proof.
+  intros Hr Hc H. unfold mexec_entry_gen in H. rewrite Hc, Hr in H.
+  apply on_throw_cleanup in H. destruct H as (rn1 & g1 & u & _ & Hcl).
+  eapply lift_child_clear_marker; eauto.
+Qed.
+End EntryThrow.
